@@ -61,6 +61,11 @@ CLAIMED = {
    note="Trusted: expected_request() table written from the EPRSocket documentation, recording stack (purpose id = socket id), fake link. Generic hardware config.",
    technique="deterministic simulation: scheduler-owned response fields and delivery times + field-by-field boundary oracle",
    ref="§5 C11"),
+ "C20": dict(
+   text="Seeded exploration on a single simulated node with a state-vector memory: each toolbox call (toffoli_gate, t_inverse, set_qubit_state, parity_meas over every Pauli string of length 1-3 with optional leading '-') runs through the real SDK -> bytes -> controller pipeline on injected computational-basis and random entangled input states, with scheduler-owned flush placement and every measurement branch forced in turn; final states are compared with the ideal operator (fidelity), parity_meas additionally on the returned value, the exact branch probability and the post-measurement state.",
+   note="Trusted: state-vector universe (definitions of the vanilla gates), operator table of the oracle. Vanilla flavour only (NV decompositions belong to C08). set_qubit_state threshold 1-1e-6, others 1-1e-9.",
+   technique="deterministic simulation: forced measurement branches and flush placement over a state-vector backend + ideal-operator oracle",
+   ref="§5 C20"),
 }
 
 PENDING = {p: 'check not built yet in this round (simulation target per DESIGN §5; will be claimed when its rig exists)' for p in ['C05','C06','C08','C09','C10','C11','C12','C13','C14','C18','C20']}
